@@ -105,6 +105,9 @@ def run(prop, tier):
     if prop == "C14":
         from checks import catchconv
         catchconv.run_catch(res, tier, binp)
+        # ... and which sliders of an osu! map become taiko hits (and so count): recorded conversions against TaikoSplice
+        from checks import taikosplice
+        taikosplice.run_taiko(res, tier, binp, parts=("trace",))
     # ---- implementation -> specification: recorded traces validated by TLC
     trace = os.path.join(common.OUT, "gradual_trace_%s_%s_%d.ndjson" % (prop, tier, os.getpid()))
     p = common.run_harness(binp, ["gradual-record", trace, "--tier", tier])
